@@ -39,7 +39,9 @@ def rule_reject_inventory(prog, res):
                     if fa is None:
                         fa = FA(f, prog)
                     v = fa.rv_term(s["rv"], (b, i))
-                    var = v.args[3][0].args[2] if v.args[3] and v.args[3][0].op == "agg" else "?"
+                    if not (v.args[3] and v.args[3][0].op == "agg"):
+                        continue        # a propagated error (the payload of another call's Err), not a refusal decided here
+                    var = v.args[3][0].args[2]
                     got[var] += 1
         want = {}
         why = "no direct rejection expected in this function"
@@ -91,7 +93,9 @@ def rule_encode_reject_inventory(prog, res, only=None):
                     if fa is None:
                         fa = FA(f, prog)
                     v = fa.rv_term(s["rv"], (b, i))
-                    var = v.args[3][0].args[2] if v.args[3] and v.args[3][0].op == "agg" else "?"
+                    if not (v.args[3] and v.args[3][0].op == "agg"):
+                        continue        # a propagated error (the payload of another call's Err), not a refusal decided here
+                    var = v.args[3][0].args[2]
                     got[var] += 1
         want = {}
         why = "no direct refusal expected in this function"
